@@ -351,7 +351,7 @@ def run_db_real(case, tmp, tag='d'):
                     log.append(('abort', step[1]))
             ops, obs, problems = w.rec.lines()
             r = L.StorageRunner.__new__(L.StorageRunner)
-            r.storage, r.base, r.pending, r.begun, r.txns, r.events = w.storage, w.base, {}, set(), {}, []
+            r.storage, r.base, r.pending, r.begun, r.txns, r.events, r.voted = w.storage, w.base, {}, set(), {}, [], set()
             fin = ['cur %d' % w.xoid, 'load %d' % w.xoid, 'hist %d' % w.xoid]
             fobs = [r.op(x) for x in fin]
             extra = ['loadserial %d %s' % (w.xoid, t) for t in fobs[2].strip('[]').split(',') if t]
@@ -430,7 +430,9 @@ def shrink(case, sig, tmp):
     if case['section'] == 'db':
         small = ddmin(case['prog'], lambda sub: fails_with(dict(case, prog=sub)), max_tests=80)
         return dict(case, prog=small)
-    # storage / undo: drop whole transactions (groups begin…finish) rather than single calls
+    if case['section'] == 'undo':
+        return case      # the undo op names revisions of the history before it: dropping any is ill-formed
+    # storage: drop whole transactions (groups begin…finish) rather than single calls
     groups, curg = [], []
     tail = []
     for o in case['ops']:
@@ -452,12 +454,17 @@ def _work(args):
     idx, case, tmp = args
     import logging
     logging.disable(logging.CRITICAL)
+    import shutil
+    sub = os.path.join(tmp, 'case%d' % idx)
+    os.makedirs(sub, exist_ok=True)
     try:
-        res = run_real_safe(case, tmp, 'w%d' % idx)
+        res = run_real_safe(case, sub, 'w')
         res['judged'] = judge(case, res)
         return idx, res, None
     except InfraError as e:
         return idx, None, 'infra: %s' % e
+    finally:
+        shutil.rmtree(sub, ignore_errors=True)
 
 
 MAX_BAD = 6
